@@ -273,7 +273,7 @@ def run(module, cfg=None, scratch=None, workers=16, timeout=900, env=None, deadl
         mv = re.search(r"Invariant (\w+) is violated", out)
         if mv:
             r.violated = mv.group(1)
-        elif "Temporal properties were violated" in out:
+        elif re.search(r"Temporal propert(y|ies) .*violated", out):
             r.violated = "<temporal>"
         elif "Deadlock reached" in out:
             r.violated = "<deadlock>"
